@@ -173,6 +173,10 @@ class TandemDispatcher(Dispatcher):
 
     def __call__(self, action: Action, store: Store) -> list[Event]:
         events = self._base_dispatcher(action, store)
+        if any(event["tag"] == Tag.REJECT for event in events):
+            # a rejected action is reported alone and changes nothing: addons do not follow it
+            return events
+
         for dispatcher in self._next_dispatchers:
             events += dispatcher(action, store)
 
